@@ -141,12 +141,6 @@ theorem C04_find_matches_agree (queries refs : List Key) :
 
 /-! ## Bonds -/
 
-def isIntra (atoms : List Atom) (b : Bond) : Bool := !inStructConn (resPos atoms) b
-def isDroppedLink (atoms : List Atom) (b : Bond) : Bool :=
-  inStructConn (resPos atoms) b && isCanonicalLink atoms (resPos atoms) b
-def isConnRow (atoms : List Atom) (b : Bond) : Bool :=
-  inStructConn (resPos atoms) b && !isCanonicalLink atoms (resPos atoms) b
-
 /-- **Bond partition.**  Every bond is in exactly one of: written to `chem_comp_bond`
 (intra-residue, not a coordination bond), omitted as a canonical backbone link, written to
 `struct_conn`; and `setInter` writes one row per bond of the third class. -/
